@@ -33,7 +33,8 @@ Low  == {"sendUnicast", "sendMulticast", "sendBroadcast",
 Prio(cmd) == IF cmd \in High THEN 2 ELSE IF cmd \in Low THEN 0 ELSE 1
 
 NoHold == [c |-> 0, cmd |-> "", ph |-> "", t0 |-> 0, early |-> "none", ev |-> 0]
-PInit == [seq |-> 0, aw |-> <<>>, hold |-> NoHold, wq |-> <<>>, tk |-> 0]
+NoOrph == [c |-> 0, t0 |-> 0]
+PInit == [seq |-> 0, aw |-> <<>>, hold |-> NoHold, wq |-> <<>>, tk |-> 0, orph |-> NoOrph]
 PR(p, out) == [p |-> p, out |-> out]
 
 Sent(c, cmd, s) == [o |-> "sent", c |-> c, cmd |-> cmd, seq |-> s]
@@ -100,6 +101,16 @@ CancelFn(p, c, modes, now) ==
     ELSE IF \E i \in 1 .. Len(p.wq) : p.wq[i].c = c
     THEN PR([p EXCEPT !.wq = SelectSeq(p.wq, LAMBDA e : e.c # c)], <<DoneR(c, "cancelled", 0)>>)
     ELSE PR(p, <<>>)
+
+(* the protocol handler is replaced (EZSP.reset() falls back to the legacy handler, version() adopts the NCP's tables): the new    *)
+(* handler starts from sequence number 0 with no registrations.  A call still waiting for its response on the replaced handler is  *)
+(* orphaned: NOTHING that arrives afterwards may complete it (frame IDs mean other commands in other versions) - it ends with its  *)
+(* own command timeout or its caller's cancellation.  Modelled for a handler with nothing queued and at most one orphan.           *)
+SwapEnabled(p) == p.wq = <<>> /\ p.orph.c = 0 /\ (p.hold.c = 0 \/ p.hold.ph = "waiting")
+SwapFn(p) == PR([PInit EXCEPT !.orph = IF p.hold.c = 0 THEN NoOrph ELSE [c |-> p.hold.c, t0 |-> p.hold.t0]], <<>>)
+OrphTimeoutEnabled(p) == p.orph.c # 0
+OrphTimeoutFn(p) == PR([p EXCEPT !.orph = NoOrph], <<DoneR(p.orph.c, "timeout", 0)>>)
+OrphCancelFn(p) == PR([p EXCEPT !.orph = NoOrph], <<DoneR(p.orph.c, "cancelled", 0)>>)
 
 (* a decodable frame of a known command arrives: f = [seq, cmd, val]                        *)
 (* alternatives: the set of allowed results (latitude for frames hitting a stale entry)      *)
